@@ -323,79 +323,7 @@ func c10R4(p *engine.Prog, r *engine.Report) {
 		}
 	}
 	cacheRebuildRule(p, r, "C10-R4", containers)
-	// AppState commit entries refresh with the same commit's diff; reset/initialise reload
-	for _, x := range []struct {
-		fn, via string
-	}{{"AppState.Commit", "core/validators.ValidatorsCache.RefreshIfUpdated"}, {"AppState.CommitTrees", "core/validators.ValidatorsCache.RefreshIfUpdated"}, {"AppState.FinalizePrecommit", "core/validators.ValidatorsCache.RefreshIfUpdated"},
-		{"AppState.ResetTo", "core/validators.ValidatorsCache.Load"}, {"AppState.Initialize", "core/validators.ValidatorsCache.Load"}, {"AppState.ForCheckWithOverwrite", "core/validators.ValidatorsCache.Load"}} {
-		f := mustFunc(p, r, "core/appstate", x.fn)
-		if f == nil {
-			continue
-		}
-		var cs []ssa.Instruction
-		for _, c := range callsTo(f, x.via) {
-			cs = append(cs, c)
-		}
-		ok := len(cs) > 0
-		detail := ""
-		if strings.HasSuffix(x.via, "RefreshIfUpdated") && ok {
-			// skipped only when block == nil; the diff argument is this commit's diff
-			var gNil []engine.Guard
-			for _, i := range engine.Ifs(f) {
-				if v, nonNilOnTrue, isN := engine.NilCheck(i.Cond); isN {
-					if n := engine.NamedOf(v.Type()); n != nil && n.Obj().Name() == "Block" {
-						gNil = append(gNil, engine.Guard{If: i, PassTrue: !nonNilOnTrue}) // pass = block is nil
-					}
-				}
-			}
-			cutB := map[*ssa.BasicBlock]bool{}
-			for _, c := range cs {
-				cutB[c.Block()] = true
-			}
-			cutE := map[engine.Edge]bool{}
-			for _, g := range gNil {
-				cutE[g.PassEdge()] = true
-			}
-			// every return that follows a successful identity commit passes the refresh unless block == nil
-			reach := engine.ReachAvoiding(f, nil, cutE, cutB)
-			for _, ret := range engine.Returns(f) {
-				if retErrKind(ret) == "nonnil" {
-					continue
-				}
-				if reach[ret.Block()] {
-					ok = false
-					detail = "a return bypasses the refresh"
-				}
-			}
-			// diff provenance
-			diffArg := cs[0].(ssa.CallInstruction).Common().Args[3]
-			switch x.fn {
-			case "AppState.Commit":
-				if !sliceCallOn(diffArg, nil, "core/state.IdentityStateDB.Commit") {
-					ok, detail = false, "diff is not the one returned by IdentityState.Commit"
-				}
-			case "AppState.CommitTrees":
-				if engine.Origin(diffArg) != ssa.Value(f.Params[2]) {
-					ok, detail = false, "diff is not the caller's diff parameter"
-				}
-			case "AppState.FinalizePrecommit":
-				if _, isF := loadOfField(diffArg, "AppState", "prevPrecommitDiff"); !isF {
-					ok, detail = false, "diff is not the one saved by Precommit"
-				}
-			}
-		}
-		r.Check(ok, "C10-R4", x.fn+"|"+x.via[strings.LastIndex(x.via, ".")+1:], p.Pos(f.Pos()), "cache follows this entry point", "the validator view is not refreshed/reloaded by "+x.fn+": "+detail)
-	}
-	// Precommit saves the diff FinalizePrecommit uses
-	if f := mustFunc(p, r, "core/appstate", "AppState.Precommit"); f != nil {
-		ok := false
-		for _, s := range storesToField([]*ssa.Function{f}, "AppState", "prevPrecommitDiff") {
-			if sliceCallOn(s.Val, nil, "core/state.IdentityStateDB.Precommit") {
-				ok = true
-			}
-		}
-		r.Check(ok, "C10-R4", "AppState.Precommit|saves the identity diff", p.Pos(f.Pos()), "prevPrecommitDiff = IdentityState.Precommit(...)", "FinalizePrecommit would refresh the cache from a stale diff")
-	}
+	appStateRefreshRule(p, r, "C10-R4", nil)
 	r.Floor("C10-R4", 14, "containers + 6 entries + precommit")
 }
 
@@ -467,6 +395,7 @@ func c10R5(p *engine.Prog, r *engine.Report) {
 	a, pa := sig(lvn)
 	b, _ := sig(upd)
 	r.Check(a != "" && a == b, "C10-R5", "newPool approval: rebuild vs incremental", pa, "both derive it from {"+a+"}", "rebuild derives a new pool's approval from {"+a+"}, the incremental update from {"+b+"}: the two views differ for some histories")
+	deletedArmCompleteRule(p, r, "C10-R5")
 	r.Floor("C10-R5", 1, "sibling")
 }
 
@@ -536,5 +465,86 @@ func cacheRebuildRule(p *engine.Prog, r *engine.Report, rule string, containers 
 			}
 			r.Check(ok, rule, "loadValidNodes|resets "+name+" before filling it", p.Pos(lvn.Pos()), "rebuild starts from an empty component", "a reused cache (AppState.ResetTo after a rollback/fork switch) keeps entries of "+name+" from the abandoned branch: the rebuilt view differs from a fresh node's")
 		}
+	}
+}
+
+// appStateRefreshRule: the validator view follows every commit entry point of AppState with that commit's own
+// identity diff (only: restricts to the named entry points plus Precommit's save).
+func appStateRefreshRule(p *engine.Prog, r *engine.Report, rule string, only map[string]bool) {
+	// AppState commit entries refresh with the same commit's diff; reset/initialise reload
+	for _, x := range []struct {
+		fn, via string
+	}{{"AppState.Commit", "core/validators.ValidatorsCache.RefreshIfUpdated"}, {"AppState.CommitTrees", "core/validators.ValidatorsCache.RefreshIfUpdated"}, {"AppState.FinalizePrecommit", "core/validators.ValidatorsCache.RefreshIfUpdated"},
+		{"AppState.ResetTo", "core/validators.ValidatorsCache.Load"}, {"AppState.Initialize", "core/validators.ValidatorsCache.Load"}, {"AppState.ForCheckWithOverwrite", "core/validators.ValidatorsCache.Load"}} {
+		if only != nil && !only[x.fn] {
+			continue
+		}
+		f := mustFunc(p, r, "core/appstate", x.fn)
+		if f == nil {
+			continue
+		}
+		var cs []ssa.Instruction
+		for _, c := range callsTo(f, x.via) {
+			cs = append(cs, c)
+		}
+		ok := len(cs) > 0
+		detail := ""
+		if strings.HasSuffix(x.via, "RefreshIfUpdated") && ok {
+			// skipped only when block == nil; the diff argument is this commit's diff
+			var gNil []engine.Guard
+			for _, i := range engine.Ifs(f) {
+				if v, nonNilOnTrue, isN := engine.NilCheck(i.Cond); isN {
+					if n := engine.NamedOf(v.Type()); n != nil && n.Obj().Name() == "Block" {
+						gNil = append(gNil, engine.Guard{If: i, PassTrue: !nonNilOnTrue}) // pass = block is nil
+					}
+				}
+			}
+			cutB := map[*ssa.BasicBlock]bool{}
+			for _, c := range cs {
+				cutB[c.Block()] = true
+			}
+			cutE := map[engine.Edge]bool{}
+			for _, g := range gNil {
+				cutE[g.PassEdge()] = true
+			}
+			// every return that follows a successful identity commit passes the refresh unless block == nil
+			reach := engine.ReachAvoiding(f, nil, cutE, cutB)
+			for _, ret := range engine.Returns(f) {
+				if retErrKind(ret) == "nonnil" {
+					continue
+				}
+				if reach[ret.Block()] {
+					ok = false
+					detail = "a return bypasses the refresh"
+				}
+			}
+			// diff provenance
+			diffArg := cs[0].(ssa.CallInstruction).Common().Args[3]
+			switch x.fn {
+			case "AppState.Commit":
+				if !sliceCallOn(diffArg, nil, "core/state.IdentityStateDB.Commit") {
+					ok, detail = false, "diff is not the one returned by IdentityState.Commit"
+				}
+			case "AppState.CommitTrees":
+				if engine.Origin(diffArg) != ssa.Value(f.Params[2]) {
+					ok, detail = false, "diff is not the caller's diff parameter"
+				}
+			case "AppState.FinalizePrecommit":
+				if _, isF := loadOfField(diffArg, "AppState", "prevPrecommitDiff"); !isF {
+					ok, detail = false, "diff is not the one saved by Precommit"
+				}
+			}
+		}
+		r.Check(ok, rule, x.fn+"|"+x.via[strings.LastIndex(x.via, ".")+1:], p.Pos(f.Pos()), "cache follows this entry point", "the validator view is not refreshed/reloaded by "+x.fn+": "+detail)
+	}
+	// Precommit saves the diff FinalizePrecommit uses
+	if f := mustFunc(p, r, "core/appstate", "AppState.Precommit"); f != nil {
+		ok := false
+		for _, s := range storesToField([]*ssa.Function{f}, "AppState", "prevPrecommitDiff") {
+			if sliceCallOn(s.Val, nil, "core/state.IdentityStateDB.Precommit") {
+				ok = true
+			}
+		}
+		r.Check(ok, rule, "AppState.Precommit|saves the identity diff", p.Pos(f.Pos()), "prevPrecommitDiff = IdentityState.Precommit(...)", "FinalizePrecommit would refresh the cache from a stale diff")
 	}
 }
